@@ -32,6 +32,7 @@ def run(tier, seed):
     vlib.require(done["n"] == summ["events"], "trace length mismatch")
     v.add_tlc(rt)
     v.add_report({"evaluations": summ["events"], "nontrivial": summ["nontrivial"], "samples": summ["samples"], "mismatches": mism}, "M3:Trace_C12", traces=1)
+    vlib.scale_stage(v, wd, "C12")
     return v.finish("model_checking", "URL records", exhaustive=True)
 
 
